@@ -145,7 +145,52 @@ def r14_4(run, model):
         run.ob("R14.4", f"{name}|one fresh Gensym", n == 1, site(rel, f.node["sp"]), f"{n} Gensym::new() in {name}")
 
 
+def r14_5(run, model):
+    run.rule("R14.5", "every package is merged in both pipelines: in each loop over the project's packages the merge of the package's exports "
+                      "(`…exports.apply_to(&mut genv)`) and of its code (`toplevels.extend(..)`) is an unconditional statement of the loop body - "
+                      "not nested under a condition and not preceded by a `continue`/`break`")
+    n = 0
+    for rel in (PL, SEP):
+        for f in model.fns(rel):
+            if f.body is None:
+                continue
+            for loop in S.find(f.body, "For"):
+                stmts = loop["body"]["stmts"]
+                merges = []
+                for c in S.walk_no_closures(loop["body"]):
+                    if c["k"] != "MethodCall":
+                        continue
+                    if c["method"] == "apply_to" and c["args"] and S.norm_ws(run.facts.text(rel, c["args"][0]["sp"])) == "&mutgenv":
+                        merges.append(("exports", c))
+                    elif c["method"] == "extend" and re.search(r"toplevels$", S.norm_ws(run.facts.text(rel, c["recv"]["sp"]))):
+                        merges.append(("code", c))
+                # only the innermost loop that contains the merge
+                if not merges or any(S.span_contains(l2["sp"], merges[0][1]["sp"]) for l2 in S.find(loop["body"], "For")):
+                    continue
+                for what, c in merges:
+                    n += 1
+                    top = [i for i, st in enumerate(stmts) if (st.get("expr") is c) or (st["k"] == "ExprStmt" and st["expr"] is c)]
+                    direct = bool(top)
+                    skips = [x for x in S.walk_no_closures(loop["body"]) if x["k"] in ("Continue", "Break") and (x["sp"][0], x["sp"][1]) < (c["sp"][0], c["sp"][1])
+                             and not any(S.span_contains(l2["sp"], x["sp"]) for l2 in S.find(loop["body"], "For", "While", "Loop"))]
+                    ok = direct and not skips
+                    run.ob("R14.5", f"{f.name}|{what} of every package merged", ok, site(rel, c["sp"]),
+                           ("unconditional statement of the loop body" if direct else "the merge is nested under a condition") +
+                           (f"; {len(skips)} continue/break before it (line {skips[0]['sp'][0]})" if skips else ""),
+                           witness="a package with only extern/struct/trait declarations is skipped at link time: calls into it refer to undefined Go functions or the linker panics, while whole-program compilation accepts the project")
+    run.floor("package merge sites in the pipelines", n, 5)
+
+
 def run(run, model):
+    run.try_rule(r14_5, model)
+    from rules import c13
+    run.rule("R14.6", "check, build and the whole-program reader see the package's files in one canonical order (shared with C13 R13.5/R13.2)")
+    try:
+        cx = c13.Ctx(run, model)
+        run.try_rule(c13.r13_5, cx)
+        run.try_rule(c13.r13_2, cx)
+    except AnalysisIncomplete as e:
+        run.skipped("R14.6", str(e))
     run.try_rule(r14_1, model)
     run.try_rule(r14_2, model)
     run.rule("R14.3", "both pipelines gate on the same diagnostics: shared with C03 R03.1 (stage gating; resolver diagnostics merged in every package type-check)")
